@@ -45,6 +45,7 @@ func report(id string, spec *CheckSpec, o runOpts, results []*unitResult, known 
 		nCases                                                                                       int
 		unitInfo                                                                                     []map[string]any
 		maxQuery                                                                                     time.Duration
+		assertsConc                                                                                  int
 	)
 	for _, r := range results {
 		if r.err != nil {
@@ -62,6 +63,7 @@ func report(id string, spec *CheckSpec, o runOpts, results []*unitResult, known 
 			forks += c.Stats.Forks
 			steps += c.Stats.Steps
 			asserts += c.Stats.AssertsProved
+			assertsConc += c.Stats.AssertsConcrete
 			assertQ += c.Stats.AssertQueries
 			queries += c.Solver.Queries
 			sat += c.Solver.Sat
@@ -214,6 +216,7 @@ func report(id string, spec *CheckSpec, o runOpts, results []*unitResult, known 
 			"solver_time_s":                 round2(solverTime.Seconds()),
 			"assertion_queries":             assertQ,
 			"assertions_discharged_unsat":   asserts,
+			"assertions_true_on_fully_decided_paths": assertsConc,
 			"cover_points":                  map[string]int{"reached": coversReached, "total": coversTotal},
 			"assert_sites":                  map[string]int{"reached": assertSitesReached, "total": assertSitesTotal},
 			"inconclusive":                  inc,
@@ -226,8 +229,8 @@ func report(id string, spec *CheckSpec, o runOpts, results []*unitResult, known 
 	os.MkdirAll(filepath.Join(verifDir, "evidence"), 0o755)
 	b, _ := json.MarshalIndent(ev, "", " ")
 	os.WriteFile(filepath.Join(verifDir, "evidence", id+".json"), b, 0o644)
-	fmt.Printf("SUMMARY %s tier=%s exit=%d cases=%d paths=%d branch_points=%d queries=%d (sat %d unsat %d unknown %d) assertions_unsat=%d/%d native_validated=%d covers=%d/%d assert_sites=%d/%d funcs=%d solver=%.1fs wall=%.1fs\n",
-		id, o.tier, exit, nCases, paths, branchPts, queries, sat, unsat, unknown, asserts, assertQ, nativeOK, coversReached, coversTotal, assertSitesReached, assertSitesTotal, len(fnames), solverTime.Seconds(), wall.Seconds())
+	fmt.Printf("SUMMARY %s tier=%s exit=%d cases=%d paths=%d branch_points=%d queries=%d (sat %d unsat %d unknown %d) assertions_unsat=%d/%d (+%d path-concrete) native_validated=%d covers=%d/%d assert_sites=%d/%d funcs=%d solver=%.1fs wall=%.1fs\n",
+		id, o.tier, exit, nCases, paths, branchPts, queries, sat, unsat, unknown, asserts, assertQ, assertsConc, nativeOK, coversReached, coversTotal, assertSitesReached, assertSitesTotal, len(fnames), solverTime.Seconds(), wall.Seconds())
 	_ = strings.Join
 	return exit
 }
